@@ -207,9 +207,14 @@ func c12RunSeq(kind string, L uint, steps []c12SeqStep) (actual []c12SeqStep, re
 }
 
 func c12GenSeq(r *Rng, L int) []c12SeqStep {
-	over := func() int { return L + 1 + r.Pick(0, 0, 1, 7, 100, 5000) }
+	over := func() int {
+		if L == 0 || L > 1<<21 { // nothing can be over: every step is within
+			return 100 + r.Intn(1500)
+		}
+		return L + 1 + r.Pick(0, 0, 1, 7, 100, 5000)
+	}
 	within := func() int {
-		if r.Chance(20) {
+		if r.Chance(20) && L > 100 && L <= 1<<21 {
 			return L - r.Intn(9)
 		}
 		return 100 + r.Intn(1500)
@@ -231,6 +236,9 @@ func c12SeqCase(r *Rng, i int, kinds []string) {
 	L := c12MiB
 	if strings.HasPrefix(kind, "http") {
 		L = r.Pick(600, 2000, 20000)
+		if r.Chance(15) { // the limit VALUE as a dimension: no limit, 16/32/63-bit edges (no message can be over those)
+			L = r.Pick(0, 1<<15, 1<<16, 1<<31-1, 1<<31, 1<<31+1, 1<<32-1, 1<<32, 1<<40, 1<<63-1)
+		}
 	}
 	steps := c12GenSeq(r, L)
 	var actual []c12SeqStep
